@@ -201,8 +201,20 @@ func phaseSeed(phase string) uint64 {
 }
 
 // count picks the number of cases for the tier, divided over shards.
+// quickScale multiplies the quick-tier case counts of the checks that finish in
+// a few seconds on an idle 16-core machine, so that the quick tier's detection
+// of the seeded changes does not hinge on one lucky draw (measured: every check
+// stays well under a minute idle, a few minutes with the machine saturated).
+var quickScale = map[string]int{
+	"C01": 4, "C02": 4, "C04": 3, "C05": 2, "C06": 3, "C07": 3, "C09": 3, "C11": 5, "C12": 5, "C13": 15, "C14": 5,
+	"C15": 3, "C16": 5, "C17": 3, "C18": 3, "C19": 3, "C22": 3, "C24": 4, "C25": 4, "C27": 2,
+}
+
 func count(quickN, thoroughN int) int {
 	n := quickN
+	if k := quickScale[envProp]; k > 1 {
+		n *= k
+	}
 	if thorough() {
 		n = thoroughN
 	}
